@@ -90,28 +90,12 @@ func c17Sidecar(p *an.Prog, r *an.R) {
 		}
 		n++
 		ok = g.GuardedBy(l, func(cond ast.Expr, truth bool) bool {
-			be, isB := ast.Unparen(cond).(*ast.BinaryExpr)
-			if !isB {
-				return false
-			}
-			call, isC := ast.Unparen(be.X).(*ast.CallExpr)
-			if !isC || !an.IsBuiltin(info, call, "len") || !an.UsesObj(info, call.Args[0], blob) {
-				return false
-			}
-			zero := false
-			if tv := info.Types[be.Y]; tv.Value != nil && tv.Value.String() == "0" {
-				zero = true
-			}
-			if !zero {
-				return false
-			}
-			switch be.Op.String() {
-			case "==":
-				return truth
-			case "!=", ">":
-				return !truth
-			}
-			return false
+			// any comparison that implies len(blob) <= 0 on this edge
+			f, isCmp := an.IntCompare(info, cond, truth, func(e ast.Expr) bool {
+				call, isC := ast.Unparen(e).(*ast.CallExpr)
+				return isC && an.IsBuiltin(info, call, "len") && an.UsesObj(info, call.Args[0], blob)
+			})
+			return isCmp && f.AtMost(0)
 		}, func(k an.Loc) bool { return k == readLoc })
 		r.Check(ok, "C17.R4", "index.(*reader).parseMetadata/sidecar-bytes-replaced-only-when-empty", g.Node(l).Pos(),
 			"the sidecar bytes are replaced by the embedded metadata only when the sidecar is absent or empty",
